@@ -69,10 +69,12 @@ class Calc:
         self.data_atoms = {f"{self.md}[BID]", f"{self.md}.get(BID)"}
         self.roles: dict[str, str] = {}  # role atom -> data atom it was read from
         self.sym = SymExec(prog, fn, call_hook=self._call_hook, item_atom="BID")
+        self.sym.watch = (self.md, self.wb)  # the caller's own containers (C18.EXCL: handed over by reference)
         leaves = self.sym.run(list(fn.node.body), {})
         if len(self.sym.loops) != 1:
             raise AnalysisError(f"{fn.qual}: aggregation loop not found ({len(self.sym.loops)} loops on the paths of one call)")
         rec = self.rec = self.sym.loops[0]
+        self.sym.derive_sums(rec)  # `xs.append(e)` in the loop + `sum(xs)` after it is an accumulator
         # paths that return before the loop is reached (`if not working_batteries: return …`) are kept apart
         self.post = [x for x in leaves if x.facts[:len(rec.facts)] == rec.facts]
         self.bypass = [x for x in leaves if x.facts[:len(rec.facts)] != rec.facts]
@@ -171,6 +173,7 @@ def check_form(run: Run, prog: Program) -> None:  # noqa: C901
     soc = Calc(prog, soc_fn)
     if set(soc.roles) != ROLES:
         raise AnalysisError(f"{soc_fn.qual}: metrics read: {sorted(soc.roles)}")
+    check_multiplicity(run, soc)
     q = soc.qualifying()
     if not q or soc.sentinel is None:
         # decided (and reported) by C18.EXCL; the formulas are stated over qualifying iterations
@@ -309,6 +312,7 @@ def check_form(run: Run, prog: Program) -> None:  # noqa: C901
     cap = Calc(prog, cap_fn)
     if set(cap.roles) != ROLES - {"soc"}:
         raise AnalysisError(f"{cap_fn.qual}: metrics read: {sorted(cap.roles)}")
+    check_multiplicity(run, cap)
     qc = cap.qualifying()
     if not qc or cap.sentinel is None:
         qc = [x for x in cap.body if any(cap.changed(x, v) for v in cap.carried)]
@@ -340,6 +344,24 @@ def register_helpers(run: Run, prog: Program, fn: FuncInfo, spliced: Any = (), u
             run.analysed(h.qual)
 
 
+def check_multiplicity(run: Run, calc: Calc) -> None:
+    """Where the per-battery contributions are collected first and summed after the loop, the collection keeps
+    one entry per qualifying battery (decided only where the code has that shape)."""
+    if not calc.sym.sums:
+        return
+    fn = calc.fn
+    bad = calc.sym.collapsing
+    run.check(not bad, "C18.FORM", fn.qual, "collected contributions keep one entry per battery",
+              (f"{bad[0][1]} before the contributions in `{bad[0][0]}` are summed, and the elements do not carry the "
+               "battery id: two working batteries whose contributions are bit-identical (identical models that are "
+               "both full, both empty or at the same level) collapse into ONE term, so the pool value is no longer the "
+               "sum / the usable-capacity-weighted mean over ALL qualifying batteries (and not monotone any more: a "
+               "battery that charges a little stops being a duplicate and the pool SoC drops). Σ over batteries is a "
+               "sum over a multiset: collect into a list, or into a set / dict keyed by the battery id. Also excluded: "
+               "`sum(set(xs))`, `dict.fromkeys(xs)`, a set of weights next to a list of weighted values") if bad else "",
+              node=bad[0][2] if bad else calc.loop, file=fn.file)
+
+
 def prog_of(calc: Calc) -> Program:
     return calc.prog
 
@@ -361,6 +383,23 @@ def check_excl(run: Run, prog: Program) -> None:
 def check_excl_calc(run: Run, calc: Calc) -> None:
     fn, loop = calc.fn, calc.loop
     register_helpers(run, prog_of(calc), fn, used=calc.sym.used)
+    muts = calc.sym.arg_mutations
+    run.check(not muts, "C18.EXCL", fn.qual, f"calculate leaves {calc.md} / {calc.wb} as the caller passed them",
+              (f"`{muts[0][1]}` changes the caller's `{muts[0][0]}` in place"
+               + (f" (when {', '.join(fmt(f) for f in muts[0][3])})" if muts[0][3] else "")
+               + ". SendOnUpdate hands calculate() its own state by reference (self._cached_metrics, "
+               "self._working_batteries — C18.EXCL `calculate(self._cached_metrics, self._working_batteries)`), so what "
+               "one recalculation removes or adds stays so for every later one: a working battery that has no cached "
+               "data at the instant of one recalculation is dropped from the aggregator's working set and stays excluded "
+               "when its data arrives, until a status message happens to CHANGE the working set (a cached record that is "
+               "removed or edited is lost the same way); the published value is then not the aggregate over the working "
+               "batteries with complete data although each single return value looks right. calculate() must read its "
+               "arguments only: no intersection_update / difference_update / discard / remove / pop / clear / update / "
+               "add, no `&=` `-=` `|=`, no item store or `del` on them or on the records reached through them — filter "
+               "into a new set") if muts else "",
+              node=muts[0][2] if muts else loop, file=fn.file)
+    if muts:
+        return  # the other obligations are stated for a loop over the arguments as they were passed
     run.check(calc.iter_term == calc.wb, "C18.EXCL", fn.qual, f"for battery_id in {calc.wb}",
               f"the aggregation iterates `{u(loop.iter)}` instead of the working batteries: batteries "
               "that are not working are included", node=loop, file=fn.file)
@@ -1081,6 +1120,9 @@ CONTROLS = [
     ("no recomputation after a working-set change", METH,
      "            self._working_batteries = new_set\n            self._update_event.set()\n",
      "            self._working_batteries = new_set\n", "C18.EXCL"),
+    ("working set filtered in place", MC, "        timestamp = _MIN_TIMESTAMP\n        total_capacity = 0.0\n",
+     "        timestamp = _MIN_TIMESTAMP\n        total_capacity = 0.0\n"
+     "        working_batteries.intersection_update(metrics_data.keys())\n", "C18.EXCL"),
     ("inverter map not initialised", METH, "        self._bat_inv_map = _get_battery_inverter_mappings(",
      "        bat_inv_map = _get_battery_inverter_mappings(", "C18.EXCL"),
     ("metrics never stored", FETCH, "                metrics[mid] = value\n", "                pass\n", "C18.EXCL"),
@@ -1138,10 +1180,33 @@ def structural_controls(prog: Program) -> list[tuple[str, str, str, str, str]]: 
                                    ("CapacityCalculator", "Energy.from_watt_hours", "({}) * 2")):
         fn = prog.func(f"{MC}:{cname}.calculate")
         try:
-            rec = Calc(prog, fn).rec
+            calc = Calc(prog, fn)
+            rec = calc.rec
             md_names = [n for n, v in rec.pre_env.items() if v == Poly.atom(fn.params[1])] or [fn.params[1]]
+            wb_names = [n for n, v in rec.pre_env.items() if v == Poly.atom(fn.params[2])] or [fn.params[2]]
             if rec.fn.module.name == MC:
                 add(f"{cname}: loop over all the data", MC, [(rec.orig.iter, md_names[0])], "C18.EXCL")
+                # the iteration edits the caller's containers (the working set is pruned / a cached record removed)
+                first, tgt = rec.orig.body[0], u(rec.orig.target)
+                stmt = f"{wb_names[0]}.discard({tgt})" if cname == "SoCCalculator" else f"{md_names[0]}.pop({tgt}, None)"
+                if isinstance(rec.orig.target, ast.Name):
+                    add(f"{cname}: an argument is changed in place", MC,
+                        [(first, f"{stmt}\n{' ' * first.col_offset}{seg(mc, first)}")], "C18.EXCL")
+            # an accumulator replaced by "collect the contributions in a set, sum after the loop"
+            body = list(fn.node.body)
+            augs = [n for b in rec.orig.body for n in ast.walk(b) if isinstance(n, ast.AugAssign) and isinstance(n.op, ast.Add)
+                    and isinstance(n.target, ast.Name) and n.target.id in calc.accs]
+            at = next((i for i, b in enumerate(body) if isinstance(b, ast.For) and (b.lineno, b.col_offset) == (
+                rec.orig.lineno, rec.orig.col_offset)), None)  # (the executor works on a copy of the tree)
+            if rec.fn is fn and at is not None and at + 1 < len(body) and augs:
+                a = augs[0].target.id
+                inits = [b for b in body[:at] if isinstance(b, (ast.Assign, ast.AnnAssign)) and b.value is not None
+                         and [u(t) for t in (b.targets if isinstance(b, ast.Assign) else [b.target])] == [a]]
+                nxt = body[at + 1]
+                if len(inits) == 1 and len([x for x in augs if x.target.id == a]) == 1:
+                    add(f"{cname}: contributions collected in a set before they are summed", MC,
+                        [(inits[0], f"{a}__c: set[float] = set()"), (augs[0], f"{a}__c.add({seg(mc, augs[0].value)})"),
+                         (nxt, f"{a} = sum({a}__c)\n{' ' * nxt.col_offset}{seg(mc, nxt)}")], "C18.FORM")
         except AnalysisError:
             pass
         nodes = class_nodes(f"{MC}:{cname}")
